@@ -21,6 +21,7 @@ PROP_FILE = 'Props/C03.v'
 THEOREMS = [
     'C03_done_not_refetched', 'C03_nothing_lost', 'C03_resume_terminates_final',
     'C03_union_complete_partial', 'C03_union_complete_refuted', 'C03_no_extra_partial', 'C03_resume_same_span',
+    'C03_start_urls_never_lost',
 ]
 TRUSTED = c01.TRUSTED + [
     'SQLite (WAL, synchronous=NORMAL) commits are atomic and survive a process kill (os._exit); exercised by the kill runs, '
@@ -81,6 +82,16 @@ def fixed_cases():
     # ... with --convert-links: the kill points include the link-conversion stage that follows the crawl
     out.append(('depth-two-starts', {'meta': {'pages': pages}, 'opts': OPTS(level=2, convert_links=True), 'starts': [('h1', '/'), ('h1', '/k/')],
                                      'start_spellings': [es.canon('h1', '/'), es.canon('h1', '/k/')]}))
+    # S4: more start URLs than one input batch (InputURLTask commits the input 1000 lines at a time): 1003 input lines, most of
+    # them spellings of the same page; the kill points include the instants between the batches' commits
+    pages = {('h1', '/'): P('doc', links=[L('h1', '/a')]),
+             ('h1', '/a'): P('leaf'),
+             ('h1', '/k/'): P('doc', links=[L('h1', '/a', spelling='../a')]),
+             ('h1', '/t2'): P('leaf'),
+             ('h1', '/k2/'): P('nodoc', code=404)}
+    starts = [('h1', '/')] * 998 + [('h1', '/k/'), ('h1', '/')] + [('h1', '/t2'), ('h1', '/'), ('h1', '/k2/')]
+    spell = [es.canon(h, p) + ('#f%d' % i if p == '/' else '') for i, (h, p) in enumerate(starts)]
+    out.append(('input-batches', {'meta': {'pages': pages}, 'opts': OPTS(), 'starts': starts, 'start_spellings': spell}))
     return out
 
 
@@ -107,7 +118,8 @@ def quick_selection(plans, si):
     af_r = [p for p in plans if 'kill_after_request' in p]
     if si == 0:
         return at_c + at_r
-    return at_c[si % 2::2] + (af_r if si % 2 else at_r)[::2]
+    # ... and every commit of the start-up (release, input batches) of every site
+    return at_c[:4] + [p for p in at_c[si % 2::2] if p not in at_c[:4]] + (af_r if si % 2 else at_r)[::2]
 
 
 def property_on_impl(case, base, result):
@@ -332,7 +344,8 @@ LEVEL_TEXT = (
     'again (C03_done_not_refetched); a checked-in row has all children its visit admitted in the table, rows are never removed, the '
     'restart leaves nothing in progress and no in-progress row is ever ownerless (C03_nothing_lost); after a kill every continuation '
     'is finite and ends with all rows done/skipped (C03_resume_terminates_final); the restarted process filters with the span-hosts '
-    'list of a fresh crawl (C03_resume_same_span, after the F33 repair). The union clause is proved only for path-independent '
+    'list of a fresh crawl (C03_resume_same_span, after the F33 repair); start-up commits the input in batches and may be killed '
+    'between two of them, yet whenever the crawl proper runs every start URL has its row (C03_start_urls_never_lost). The union clause is proved only for path-independent '
     'admission (C03_union_complete_partial, C03_no_extra_partial: every schedule and kill history); the full clause is refuted for '
     'several workers by a vm_compute witness (C03_union_complete_refuted = known finding level-first-discovery); for one worker with '
     'path-dependent admission (depth limits) it is carried by the exhaustive kill enumeration of the correspondence only.')
@@ -341,7 +354,8 @@ LEVEL_NOTE = (
     'application for every commit/request kill point of the listed sites; SQLite atomic durable commits under process kill; the '
     'kill plans. One listed site runs with the database named by --database-uri (generic SQLAlchemy table class), one with --convert-links, '
     'whose kill points extend into the link-conversion stage that follows the crawl (the conversion stage itself is not in the model: only '
-    'that it requests nothing and leaves the URL rows alone is observed). '
+    'that it requests nothing and leaves the URL rows alone is observed); one has 1003 input lines, so that the start-up commits two input '
+    'batches and kills fall between them (LAddBatch in the model). '
     'Not modelled: robots.txt, cookies, FTP, WARC/file output of the interrupted item, the >= 1000-children mid-scrape flush.')
 TECHNIQUE = ('Coq invariants over an LTS with a crash step (all crash points, all interleavings); vm_compute trace replay of '
              'exhaustively enumerated kill/rerun pairs of the real application')
